@@ -103,6 +103,7 @@
 #include <unistd.h>
 #include <sched.h>
 #include <dlfcn.h>
+#include <execinfo.h>
 #include <atomic>
 #include <map>
 #include <xercesc/sax/EntityResolver.hpp>
@@ -427,8 +428,37 @@ class CountingMemMgr : public MemoryManager {
 public:
     std::atomic<long> allocs{0}, frees{0};
     MemoryManager* getExceptionMemoryManager() override { return XMLPlatformUtils::fgMemoryManager; }
-    void* allocate(XMLSize_t size) override { allocs++; void* p = ::operator new(size ? size : 1); return p; }
-    void deallocate(void* p) override { if (p) { frees++; ::operator delete(p); } }
+    // once tracing is on (after lockPool) every block remembers who allocated it, so that what a LOCKED pool still
+    // allocates can be classified: growth of the synchronised URI pool (the one documented mutable part), lazily built
+    // content models of DTD / schema grammars, anything else
+    std::atomic<bool> trace{false};
+    struct Bt { void* f[16]; int n; };
+    std::mutex tm; std::map<void*, Bt> live;
+    void* allocate(XMLSize_t size) override {
+        allocs++; void* p = ::operator new(size ? size : 1);
+        if (trace.load()) { Bt b; b.n = backtrace(b.f, 16); std::lock_guard<std::mutex> l(tm); live[p] = b; }
+        return p;
+    }
+    void deallocate(void* p) override {
+        if (p) { frees++; if (trace.load()) { std::lock_guard<std::mutex> l(tm); live.erase(p); } ::operator delete(p); }
+    }
+    // (syncpool, dtdcm, xsdcm, other, fmt) of the blocks allocated since tracing began and still alive
+    void classify(long out[5], std::string* detail) {
+        out[0] = out[1] = out[2] = out[3] = out[4] = 0;
+        std::lock_guard<std::mutex> l(tm);
+        for (auto& kv : live) {
+            char** sy = backtrace_symbols(kv.second.f, kv.second.n);
+            std::string t;
+            for (int i = 1; i < kv.second.n; i++) { t += sy[i]; t += "\n"; }
+            free(sy);
+            int c = t.find("XMLSynchronizedStringPool") != std::string::npos ? 0
+                  : t.find("ormatContentModel") != std::string::npos ? 4          // cached text of a content model (error messages)
+                  : t.find("DTDElementDecl") != std::string::npos ? 1
+                  : t.find("ComplexTypeInfo") != std::string::npos ? 2 : 3;
+            out[c]++;
+            if (detail && (c == 2 || c == 3) && detail->size() < 6000) *detail += t + "--\n";
+        }
+    }
 };
 
 static void wrapExceptions(Digest& d, const std::function<void()>& f) {
@@ -1058,8 +1088,18 @@ static std::string rangeMapState(bool checkCompl, std::string* bad) {
         RangeTokenElemMap* em = reg->get(key);
         RangeToken* p = em->getRangeToken(false);
         RangeToken* n = em->getRangeToken(true);
+        // hash of the SET the positive token denotes (ranges sorted and merged first: complementRanges() sorts and
+        // compacts its argument in place, which changes the representation but must not change the set)
         uint64_t h = 1469598103934665603ull;
-        if (p) { h ^= (uint64_t)p->getTokenType(); h *= 1099511628211ull; for (unsigned i = 0; i < p->fElemCount; i++) { h ^= (uint64_t)(uint32_t)p->fRanges[i]; h *= 1099511628211ull; } }
+        if (p) {
+            std::vector<std::pair<XMLInt32, XMLInt32> > rs;
+            for (unsigned i = 0; i + 1 < p->fElemCount; i += 2) rs.push_back(std::make_pair(p->fRanges[i], p->fRanges[i + 1]));
+            std::sort(rs.begin(), rs.end());
+            std::vector<std::pair<XMLInt32, XMLInt32> > mg;
+            for (auto& x : rs) { if (!mg.empty() && x.first <= mg.back().second + 1) mg.back().second = std::max(mg.back().second, x.second); else mg.push_back(x); }
+            h ^= (uint64_t)p->getTokenType(); h *= 1099511628211ull;
+            for (auto& x : mg) { h ^= (uint64_t)(uint32_t)x.first; h *= 1099511628211ull; h ^= (uint64_t)(uint32_t)x.second; h *= 1099511628211ull; }
+        }
         char buf[32]; snprintf(buf, sizeof buf, "%016llx", (unsigned long long)h);
         rows.push_back(narrow(key) + "=" + (p ? buf : "none"));
         if (checkCompl && p && n) {
@@ -1357,7 +1397,6 @@ int main(int argc, char** argv) {
     if (gPerturbLevel > 0 && mode == "conc") { pm = new PerturbMutexMgr(origMgr); XMLPlatformUtils::fgMutexMgr = pm; }
 
     CountingMemMgr* poolMem = 0;
-    const bool strictMem = (sh.mask & 0x82u) == 0;       // bits 1 and 7 add namespace URIs: the synchronised URI pool may grow
     if (sh.mask & 0xC282u) {
         // the shared pool: schema grammars (plain + rich) and a DTD grammar are cached, then the pool is locked; from then on
         // it is read-only and hands out a synchronised URI string pool.  It has its own (counting) memory manager.
@@ -1424,6 +1463,7 @@ int main(int argc, char** argv) {
         return std::to_string(keys.size()) + " " + (all.empty() ? "-" : all);
     };
     if (sh.pool) printf("POOL before %s\n", poolState().c_str());
+    if (poolMem) poolMem->trace = true;
     long memBefore = poolMem ? poolMem->allocs.load() - poolMem->frees.load() : 0, memAllocsBefore = poolMem ? poolMem->allocs.load() : 0;
 
     std::vector<Digest> res(nthreads);
@@ -1445,8 +1485,14 @@ int main(int argc, char** argv) {
     for (int i = 0; i < nthreads; i++) printf("T %d %016llx %lu\n", i, (unsigned long long)res[i].h, res[i].ops);
 
     if (sh.pool) printf("POOL after %s\n", poolState().c_str());
-    if (poolMem) printf("POOLMEM strict=%d outstanding before %ld after %ld allocations %ld\n", (int)strictMem, memBefore,
-                        poolMem->allocs.load() - poolMem->frees.load(), poolMem->allocs.load() - memAllocsBefore);
+    if (poolMem) {
+        long cls[5]; std::string detail;
+        poolMem->classify(cls, &detail);
+        poolMem->trace = false;
+        printf("POOLMEM outstanding before %ld after %ld allocations %ld new-blocks syncpool=%ld dtdcm=%ld xsdcm=%ld fmt=%ld other=%ld\n", memBefore,
+               poolMem->allocs.load() - poolMem->frees.load(), poolMem->allocs.load() - memAllocsBefore, cls[0], cls[1], cls[2], cls[4], cls[3]);
+        if (!detail.empty()) fprintf(stderr, "POOLMEM-DETAIL blocks allocated from the LOCKED pool and still alive:\n%s", detail.c_str());
+    }
     if (sh.pool) {
         bool changed = true;
         XSModel* xm = sh.pool->getXSModel(changed);
@@ -1454,6 +1500,13 @@ int main(int argc, char** argv) {
     }
     if (sh.mask & 0x20800u) {
         std::string bad;
+        // one more complement request per lazily built keyword by the main thread: after getRange(key, true) has returned,
+        // the complement slot must be filled (a publication into the wrong slot leaves it empty whatever the parity)
+        for (const std::string& k : sh.lazyCompl) {
+            try { RegularExpression re(X("\\P{" + k + "}").c_str()); } catch (const XMLException&) { }
+            RangeTokenElemMap* em = RangeTokenMap::instance()->getTokenRegistry()->get(X(k).c_str());
+            if (em && em->getRangeToken(false) && !em->getRangeToken(true)) bad += k + ":complement-slot-empty-after-request ";
+        }
         std::string rmAfter = rangeMapState(true, &bad);
         printf("RANGEMAP positive-slots %s complement-slots %s %s\n", rmAfter == rmBefore ? "unchanged" : "CHANGED",
                bad.empty() ? "ok" : "BAD", bad.c_str());
